@@ -102,18 +102,16 @@ func runC20(c *Ctx) {
 	c.Res.Rule = "one case = one operation mix (profile|web|options|tempfile|fetch|binutils) with seeded parameters, run in a -race child process: sequential baseline first, then the same operations from several goroutines released together; non-trivial = at least one compared operation ran while another operation on the same shared object was in flight (measured with an in-flight counter)"
 	if c.Replay != "" {
 		var cs c20Case
-		if err := c.LoadReplay(&cs); err != nil {
-			c.Res.HarnessError = "replay: " + err.Error()
-			return
-		}
-		if cs.Mix == "" { // a "broken obligation" replay has no case: run every mix
+		if err := c.LoadReplay(&cs); err != nil || cs.Mix == "" {
+			// a "broken obligation" replay (no-failing-input-found) has no case: search again,
+			// harder, with every mix
 			c20Generated(c, 3)
 			return
 		}
 		if cs.Rounds < 1 {
 			cs.Rounds = 1
 		}
-		if filepath.Dir(c.Replay) != filepath.Clean(os.Getenv("C20_CORPUS")) && !strings.Contains(c.Replay, string(filepath.Separator)+"corpus"+string(filepath.Separator)) {
+		if !strings.Contains(c.Replay, string(filepath.Separator)+"corpus"+string(filepath.Separator)) {
 			cs.Rounds *= 5 // an explicit replay of a failing schedule: try harder
 		}
 		c20RunCases(c, []c20Case{cs})
@@ -127,25 +125,28 @@ func c20Generated(c *Ctx, boost int) {
 	r := NewRng(c.Seed)
 	var cases []c20Case
 	for _, m := range c20Mixes {
-		cs := c20Case{Mix: m, Seed: r.U64() >> 1, Goroutines: 4 + r.Intn(9), Ops: 6 + r.Intn(10), Rounds: 3 * boost * c.Scale, Note: c20Note}
+		cs := c20Case{Mix: m, Seed: r.U64() >> 1, Goroutines: 4 + r.Intn(9), Ops: 6 + r.Intn(10), Rounds: 10 * boost * c.Scale, Note: c20Note}
 		switch m {
 		case "fetch":
 			cs.Sources = []int{2, 5, 17, 40, 131}[r.Intn(5)]
 			cs.Bases = r.Intn(4)
-			cs.Rounds = 2 * boost * c.Scale
+			cs.Rounds = 14 * boost * c.Scale
 		case "tempfile":
 			for i := 1; i <= 12; i++ {
 				if r.Chance(30) {
 					cs.Existing = append(cs.Existing, i)
 				}
 			}
-			cs.Goroutines = 3 + r.Intn(4)
+			cs.Goroutines = 4 + r.Intn(5)
 			cs.Ops = 2 + r.Intn(3)
-			cs.Rounds = 1 * boost * c.Scale
+			cs.Rounds = 8 * boost * c.Scale
 		case "options":
 			cs.Goroutines = 2 + r.Intn(3)
-			cs.Rounds = 2 * boost * c.Scale
+			cs.Rounds = 12 * boost * c.Scale
 		case "profile":
+			cs.Rounds = 30 * boost * c.Scale
+		case "binutils":
+			cs.Goroutines = 4 + r.Intn(6)
 			cs.Rounds = 6 * boost * c.Scale
 		}
 		cases = append(cases, cs)
@@ -166,6 +167,7 @@ func c20RunCases(c *Ctx, cases []c20Case) {
 		obs   *c20Obs
 		races []c20Race
 		err   string
+		wall  float64
 	}
 	out := make([]res, len(cases))
 	var wg sync.WaitGroup
@@ -173,8 +175,9 @@ func c20RunCases(c *Ctx, cases []c20Case) {
 		wg.Add(1)
 		go func(i int) {
 			defer wg.Done()
+			t0 := time.Now()
 			obs, races, err := c20Spawn(c, cases[i], i)
-			out[i] = res{cases[i], obs, races, err}
+			out[i] = res{cases[i], obs, races, err, time.Since(t0).Seconds()}
 		}(i)
 	}
 	wg.Wait()
@@ -209,7 +212,7 @@ func c20RunCases(c *Ctx, cases []c20Case) {
 		c.Res.Dist[cs.Mix+"/ops-compared"] += r.obs.Ops
 		c.Res.Dist[cs.Mix+"/ops-overlapped"] += r.obs.Overlapped
 		c.Res.Count(string(key), r.obs.Overlapped > 0)
-		c.Res.Sample(map[string]any{"mix": cs.Mix, "goroutines": cs.Goroutines, "ops": r.obs.Ops, "overlapped": r.obs.Overlapped, "races": len(r.races), "failures": len(r.obs.Fails)})
+		c.Res.Sample(map[string]any{"mix": cs.Mix, "goroutines": cs.Goroutines, "ops": r.obs.Ops, "overlapped": r.obs.Overlapped, "races": len(r.races), "failures": len(r.obs.Fails), "child_wall_s": float64(int(r.wall*10)) / 10})
 		// exclusive-create model vs the real newTempFile, sequential part
 		if cs.Mix == "tempfile" && len(r.obs.SeqNames) > 0 {
 			c.Res.ModelCompared++
@@ -333,12 +336,14 @@ type c20Race struct {
 	class string
 }
 
-// races with a known cause get a stable, specific signature (frames vary with the schedule)
+// races with a known cause get a stable, specific signature (the frames vary with the schedule):
+// both conflicting accesses must be in the listed functions
 var c20RaceClasses = []struct {
-	re  *regexp.Regexp
+	fns []string
 	sig string
 }{
-	{regexp.MustCompile(`binutils\.\(\*fileNM\)\.SourceLine`), "binutils.fileNM.addr2linernm-lazy-init"},
+	{[]string{"internal/binutils.(*fileNM).SourceLine", "internal/binutils.(*addr2LinerNM).addrInfo", "internal/binutils.parseAddr2LinerNM", "internal/binutils.newAddr2LinerNM"},
+		"binutils.fileNM.addr2linernm-lazy-init"},
 }
 
 func (r c20Race) sig() string {
@@ -385,11 +390,6 @@ func c20ReadRaces(tmp string) []c20Race {
 				}
 			}
 			rc := c20Race{text: c20Trunc(strings.TrimSpace(blk))}
-			for _, cl := range c20RaceClasses {
-				if cl.re.MatchString(body) {
-					rc.class = cl.sig
-				}
-			}
 			if len(stacks) > 0 {
 				rc.a = stacks[0]
 			}
@@ -401,6 +401,19 @@ func c20ReadRaces(tmp string) []c20Race {
 			}
 			if rc.b == "" {
 				rc.b = "non-pprof-frame"
+			}
+			for _, cl := range c20RaceClasses {
+				in := func(f string) bool {
+					for _, x := range cl.fns {
+						if x == f {
+							return true
+						}
+					}
+					return false
+				}
+				if in(rc.a) && in(rc.b) {
+					rc.class = cl.sig
+				}
 			}
 			if !seen[rc.sig()] {
 				seen[rc.sig()] = true
